@@ -166,10 +166,10 @@ def instrOk (b : SolB) : Instr → Bool
   | _ => true
 
 /-- the checker: `b` is a post-fixpoint of the constraint system of `p`
-    (masks bounded; `cont owned = {owned}`; parameters point to `owned`; every instruction's inclusion) -/
+    (masks bounded; `owned ∈ cont owned`; parameters point to `owned`; every instruction's inclusion) -/
 def isPostFixpoint (p : Prog) (b : SolB) : Bool :=
   b.pts.all (fun m => m >>> b.nObj == 0)
-  && b.contOf 0 == 1
+  && (b.contOf 0).testBit 0
   && p.params.all (fun x => (b.ptsOf x).testBit 0)
   && p.instrs.all (instrOk b)
 
